@@ -951,15 +951,28 @@ def settings(ctx):
                 "{stable, beta, latest, t, current}, --keep, --exact, --inexact; each request put to a fresh Eups with "
                 "readCache off and on; plus sequences of 2-4 requests on one instance and five alternative "
                 "hooks.config.Eups.VRO settings for selectVRO; a case is non-trivial when a product is found and the "
-                "request names a version or a tag option; distinct = distinct (database, request)")
+                "request names a version or a tag option; distinct = distinct (database, request); family versions: "
+                "databases whose version names are drawn from the conventional grammar of harness/c10.py (neighbours such "
+                "as 1.0 1.0.1 1.0+1 1.0-rc1 1.10 1.9, a sample of the bounded grammar, a letter prefix v for 12% of the "
+                "products, two letter prefixes in one product 10%, two spellings of one key 35%, an accepted but not "
+                "conventional name 8%), requests with relational expressions and || alternatives over them, bracketed "
+                "expressions, -t/-T latest, both look-up modes; directed databases with ties inside one stack and "
+                "across two; a written-through cache whose listing is not sorted")
     ctx.trusted_base = common.COMMON_TRUSTED + [
         "harness/c03.py extract_hooks/extract_taggroups: python ast -> coq/Generated/Config.v, fail-closed (any "
         "non-literal or repeated assignment to the watched config.Eups attributes aborts the check)",
         "modelled, not verified: python list.sort with a consistent comparator (last of the greatest elements), "
         "dict/list membership on strings, the directory listing order of version files (immaterial under a total order)",
-        "hooks.version_cmp / Eups.version_match enter the model as parameters (C10 models them); the extracted model "
-        "and the examples use a dotted-numeric comparator and one-term expressions, and the harness keeps its version "
-        "names inside that fragment"]
+        "hooks.version_cmp / Eups.version_match enter the model as parameters; the first family of cases runs the "
+        "extracted model with a dotted-numeric comparator and one-term expressions and keeps its version names inside "
+        "that fragment (1.0 1.1 2.0 10.0); the family versions runs it with the comparator and the matcher of C10 "
+        "(coq/Model/ResolveReal.v, op casev) on version names of C10's grammar",
+        "family versions: the listing order of the version files of a product is an INPUT of the model - sorted as "
+        "strings for look-ups in the database files (Database.findProducts sorts), as ProductStack.getVersions reports "
+        "it for look-ups through the cache; it decides which of several spellings of one key is returned",
+        "family versions: python's list.sort is read as: the last of the greatest elements; this presupposes that "
+        "hooks.version_cmp is a total preorder on the declared names, which the harness tests on the real comparator "
+        "per request (it is not on 2 / 10 / 1a); such requests are counted, not compared"]
     ctx.assumptions = [
         "default configuration: no --vro, no -z dictionaries in hooks.config.Eups.VRO, every -t/-T word is a "
         "registered, unqualified, non-reserved tag name",
@@ -969,7 +982,13 @@ def settings(ctx):
         "file named keep) and total_order_on vcmp (the version names declared for the product), which only the "
         "latest and expression entries use",
         "the designation rule speaks about a product not yet chosen in the running command (alreadySetupProducts has no "
-        "entry for it); with an entry the model is tied to the code by correspondence and earlier_rank_wins"]
+        "entry for it); with an entry the model is tied to the code by correspondence and earlier_rank_wins",
+        "the theorems ..._real: conventional version names (C10: conv) for the expression and latest entries "
+        "(expr_highest_real, latest_highest_real, tie_rules_real); walk_is_designation_real and its corollaries in "
+        "addition: no two declared names of the product spell the same key (real_names_ok - for the real comparator "
+        "this IS total_order_on, real_comparator_total_order), and real_domain (no comparison the request causes raises); "
+        "one stack with listings sorted as strings: conventional names suffice, the designation rule read in the order "
+        "vcmp_sorted (walk_is_designation_one_sorted_stack)"]
 
 
 def run(ctx):
@@ -997,6 +1016,8 @@ def run(ctx):
     step = 400
     for i in range(0, len(groups), step):
         compare_groups(ctx, groups[i:i + step], label="case")
+    # the comparator of C10 inside the resolver: generated after (and so without disturbing) the cases above
+    run_versions(ctx)
 
 
 def replay(ctx, path):
@@ -1008,7 +1029,590 @@ def replay(ctx, path):
         print("replay %s: nothing to replay (kind %s)" % (path, obj.get("kind")))
         return 1
     c = {k: v for k, v in c.items() if k not in ("readCache", "step")}
-    compare_groups(ctx, [case_to_group(c)], label="replay")
+    if c.get("family") == "versions":
+        compare_groups_versions(ctx, [case_to_group_v(c)], label="replay")
+    else:
+        compare_groups(ctx, [case_to_group(c)], label="replay")
     bad = [f for f in ctx.failures if not ctx._known(f)] or ctx.disagreements
     print("replay %s: %s" % (path, "still fails" if bad else "passes"))
     return 1 if bad else 0
+
+
+# ====================================================================== family versions
+# The comparator and the matcher of C10 inside the resolver (coq/Model/ResolveReal.v, op casev of build/c03/run):
+# version names drawn from the conventional grammar of harness/c10.py (1.0 1.0.1 1.0+1 1.0-rc1 1.10 1.9 v1_2 ...),
+# some of them spellings of one key (1.0 / 1_0 / 1.00), a few accepted but not conventional (1a, 1.2m3), and
+# relational expressions with alternatives over them.  The listing order of the version files of a product is an
+# input of the model: sorted as strings for look-ups in the database files (Database.findProducts sorts), and as
+# the cache reports it (ProductStack.getVersions) for look-ups through the cache.
+
+import re as _re
+
+import c10 as C10
+
+V_NEIGHBOURS = ["1.0", "1.0.1", "1.0+1", "1.0-rc1", "1.0-rc2", "1.10", "1.9", "1.9.1", "2", "10", "1.1", "1.0+a1",
+                "0.9", "1.0.0", "1.10-rc1", "1.10+1", "2.0", "1.0-rc1+1", "1_1", "1.01"]
+V_ODD = ["1a", "1.2m3", "rel-0-8-2", "1.0a", "2b1", "1.2p1"]          # accepted by C10, not conventional
+_V_GRAMMAR = None
+
+
+def _v_grammar():
+    global _V_GRAMMAR
+    if _V_GRAMMAR is None:
+        _V_GRAMMAR = C10.big_grammar()
+    return _V_GRAMMAR
+
+
+def respell(rng, v):
+    """another spelling of the same key: the other separator, or a zero in front of a numeric component"""
+    r = rng.random()
+    if r < 0.5 and ("." in v or "_" in v):
+        i = rng.choice([k for k, ch in enumerate(v) if ch in "._"])
+        return v[:i] + ("_" if v[i] == "." else ".") + v[i + 1:]
+    m = list(_re.finditer(r"\d+", v))
+    k = rng.choice(m)
+    return v[:k.start()] + "0" + v[k.start():]
+
+
+def version_pool(rng):
+    """the names one product may be declared under, in this database"""
+    r = rng.random()
+    pre = "v" if r < 0.12 else ""
+    pool = [pre + v for v in rng.sample(V_NEIGHBOURS, rng.choice([3, 4, 5]))]
+    pool += [v for v in rng.sample(_v_grammar(), 2) if (v[:1] == "v") == bool(pre)]
+    if 0.12 <= r < 0.22:
+        pool.append("v" + rng.choice(V_NEIGHBOURS))          # two letter prefixes in one product
+    if rng.random() < 0.35:
+        pool.append(respell(rng, rng.choice(pool)))          # two spellings of one key
+    if rng.random() < 0.08:
+        pool.append(rng.choice(V_ODD))
+    out = []
+    for v in pool:
+        if v not in out:
+            out.append(v)
+    return out
+
+
+def gen_db_versions(rng):
+    pools = {n: version_pool(rng) for n in PRODUCTS}
+    stacks = []
+    for sid in STACKS:
+        decl, chain = [], []
+        for n in PRODUCTS:
+            if rng.random() < 0.12:
+                continue
+            k = min(len(pools[n]), rng.choice([1, 2, 2, 3, 4]))
+            for v in rng.sample(pools[n], k):                 # declaration order is random
+                for f in rng.choice([[NATIVE], [NATIVE], [NATIVE], [FALLBACK], [NATIVE, FALLBACK]]):
+                    decl.append([n, v, f])
+            for f in (NATIVE, FALLBACK):
+                mine = [d[1] for d in decl if d[0] == n and d[2] == f]
+                for t in DB_TAGS:
+                    p = {"current": 0.5, "stable": 0.25, "beta": 0.25, "t": 0.2}[t]
+                    if mine and rng.random() < p:
+                        chain.append([n, f, t, rng.choice(mine)])
+        stacks.append({"id": sid, "decl": decl, "chain": chain})
+    return stacks, pools
+
+
+def gen_expr_versions(rng, pool):
+    ops = ["<", "<=", "==", ">=", ">", ">=", "<"]
+
+    def term():
+        w = rng.choice(pool) if rng.random() < 0.8 else rng.choice(V_NEIGHBOURS)
+        return rng.choice(ops) + rng.choice(["", " ", " "]) + w
+    k = rng.choice([1, 1, 1, 2, 2, 3])
+    return " || ".join(term() for _ in range(k))
+
+
+def gen_request_versions(rng, db, pools):
+    n = rng.choice(PRODUCTS)
+    pool = pools[n]
+    r = rng.random()
+    version = expr = None
+    if r < 0.08:
+        form = "bare"
+    elif r < 0.25:
+        form = "version"
+        version = rng.choice(pool + [rng.choice(V_NEIGHBOURS)])
+    elif r < 0.8:
+        form = "expr"
+        version = gen_expr_versions(rng, pool)
+    else:
+        form = "version+expr"
+        version = rng.choice(pool + [rng.choice(V_NEIGHBOURS), "77"])
+        expr = gen_expr_versions(rng, pool)
+    o = {"keep": False, "exact": rng.random() < 0.1, "inexact": rng.random() < 0.1,
+         "tags": rng.choice([[], [], [], ["latest"], ["beta"], ["latest", "t"]]),
+         "posttags": rng.choice([[], [], [], ["latest"], ["stable"]])}
+    prev = None
+    if rng.random() < 0.1:
+        cands = [(s["id"], d) for s in db for d in s["decl"] if d[0] == n]
+        if cands:
+            sid, d = rng.choice(cands)
+            prev = {"stack": sid, "version": d[1], "flavor": d[2],
+                    "reason": rng.choice([None, ["latest", None], ["versionExpr", ">= " + d[1]], ["version", d[1]]])}
+    return {"name": n, "version": version, "expr": expr, "form": form, "depth": rng.choice([0, 1, 1, 1]),
+            "flavors": [NATIVE, FALLBACK] if rng.random() < 0.85 else [FALLBACK, FALLBACK], "prev": prev, "opts": o}
+
+
+def gen_group_versions(rng, nreq):
+    db, pools = gen_db_versions(rng)
+    return {"db": db, "requests": [gen_request_versions(rng, db, pools) for _ in range(nreq)], "family": "versions"}
+
+
+def directed_groups_versions():
+    """the situations named in the task: a tie between spellings inside one stack and across two stacks, for the
+    tag latest and for expressions; numeric components; pre- and post-release parts; two letter prefixes"""
+    def rq(version, expr=None, tags=(), depth=1):
+        return {"name": "p1", "version": version, "expr": expr, "form": "directed", "depth": depth,
+                "flavors": [NATIVE, FALLBACK], "prev": None,
+                "opts": {"keep": False, "exact": False, "inexact": False, "tags": list(tags), "posttags": []}}
+    reqs = [rq(">= 0.9"), rq("<= 1.0"), rq("== 1.0"), rq("== 1_0"), rq("< 1.0 || == 1.00"), rq(None, tags=["latest"]),
+            rq("1.0"), rq("1.0", depth=0), rq("1.00", ">= 0.9", depth=0), rq("7", "== 1.0"), rq("> 1.0")]
+    tie1 = [{"id": "s1", "decl": [["p1", v, NATIVE] for v in ("1_0", "1.0", "0.9")], "chain": []},
+            {"id": "s2", "decl": [["p1", v, NATIVE] for v in ("1.00", "0.5")], "chain": []}]
+    tie2 = [{"id": "s1", "decl": [["p1", v, NATIVE] for v in ("1.0", "0.9")], "chain": []},
+            {"id": "s2", "decl": [["p1", v, NATIVE] for v in ("1_0", "01.0", "1.0")], "chain": []}]
+    reqs3 = [rq(x) for x in (">= 1.0.1", "< 1.10", "< 1.0.1", "<= 1.0", "< 1.0", "== 1.9", "> 1.10", ">= v1.0",
+                             "< 1.0-rc1 || == 1.0+1", ">=1.0+1", "< v2.0")] + \
+            [rq(None, tags=["latest"]), rq("3.0", ">= 1.0+1"), rq("1.0", ">= 1.0+1"), rq("1.0+1", depth=0)]
+    plain = [{"id": "s1", "decl": [["p1", v, NATIVE] for v in ("1.0", "1.0+1", "1.0-rc1", "1.0.1", "1.9")],
+              "chain": [["p1", NATIVE, "current", "1.0+1"]]},
+             {"id": "s2", "decl": [["p1", v, NATIVE] for v in ("1.10", "1.10-rc1", "1.9", "v2.0")], "chain": []}]
+    return [{"db": tie1, "requests": reqs, "family": "versions"}, {"db": tie2, "requests": reqs, "family": "versions"},
+            {"db": plain, "requests": reqs3, "family": "versions"}]
+
+
+# ------------------------------------------------------------------ implementation side
+
+def _listing(eups, base, q):
+    """what the cache of each stack lists for the product, per flavor (the order the look-ups through the cache meet)"""
+    sys.modules["eups.db.Database"]._databases.clear()
+    os.environ["EUPS_FLAVOR"] = q["flavors"][0]
+    e = eups.Eups(readCache=True, quiet=1, setupType=None)
+    out = {}
+    for root in e.path:
+        st = e.versions.get(root)
+        sid = os.path.relpath(root, base)
+        out[sid] = {}
+        for f in set(q["flavors"]):
+            try:
+                out[sid][f] = list(st.getVersions(q["name"], f)) if st else None
+            except Exception as ex:  # noqa
+                out[sid][f] = {"err": type(ex).__name__}
+    return out
+
+
+def _order_facts(eups, names):
+    """is hooks.version_cmp, restricted to these names, a total preorder (python's sort means something)?"""
+    from eups import hooks
+    c = {}
+    for a in names:
+        for b in names:
+            try:
+                x = hooks.version_cmp(a, b)
+                c[(a, b)] = (x > 0) - (x < 0)
+            except Exception:  # noqa
+                return {"crash": True, "consistent": False}
+    ok = all(c[(a, a)] == 0 for a in names) and all(c[(a, b)] == -c[(b, a)] for a in names for b in names) and \
+        all(not (c[(a, b)] <= 0 and c[(b, d)] <= 0) or c[(a, d)] <= 0 for a in names for b in names for d in names)
+    return {"crash": False, "consistent": ok}
+
+
+def impl_groups_v(groups):
+    """child: as impl_groups, plus the cache's listing and the order facts of the product's names per request"""
+    eups = None
+    res = []
+    for g in groups:
+        base = common.scratch_dir()
+        try:
+            _setup_environ(base)
+            if eups is None:
+                eups = common.import_eups()
+                from eups import hooks
+                for t in EXTRA_GLOBAL:
+                    if t not in hooks.config.Eups.globalTags:
+                        hooks.config.Eups.globalTags += [t]
+                import eups.utils
+                user = eups.utils.getUserName()
+            sys.modules["eups.db.Database"]._databases.clear()
+            _write_db(eups, base, g["db"])
+            one = []
+            for q in g["requests"]:
+                r = {}
+                for rc in (False, True):
+                    sys.modules["eups.db.Database"]._databases.clear()
+                    r["cache" if rc else "db"] = impl_one(eups, base, q, rc, None)
+                r["listing"] = _listing(eups, base, q)
+                names = sorted(set(d[1] for s in g["db"] for d in s["decl"] if d[0] == q["name"]))
+                r["order"] = _order_facts(eups, names)
+                one.append(r)
+            res.append({"requests": one, "user": user})
+        finally:
+            shutil.rmtree(base, ignore_errors=True)
+    return res
+
+
+def run_parallel_v(groups, nproc=NPROC):
+    if not groups:
+        return []
+    nproc = max(1, min(nproc, len(groups), (os.cpu_count() or 4)))
+    slices = [groups[i::nproc] for i in range(nproc)]
+    outs = common.par_map(impl_groups_v, [(sl,) for sl in slices], nproc=nproc, timeout=900)
+    merged = [None] * len(groups)
+    for k, r in enumerate(outs):
+        if r[0] != "ok":
+            raise RuntimeError("implementation child failed: %r" % (str(r)[-1500:],))
+        for j, x in enumerate(r[1]):
+            merged[k + j * nproc] = x
+    return merged
+
+
+# ------------------------------------------------------------------ listing orders for the model
+
+def db_sorted(db):
+    """Database.findProducts: the version files of one product, sorted as strings"""
+    return [dict(s, decl=sorted(s["decl"], key=lambda d: d[1])) for s in db]
+
+
+def db_as_listed(db, q, listing):
+    """the declarations of the requested product in the order the cache lists them (per stack and flavor)"""
+    out = []
+    for s in db:
+        lst = listing.get(s["id"]) or {}
+
+        def key(d):
+            l = lst.get(d[2])
+            if d[0] != q["name"] or not isinstance(l, list) or d[1] not in l:
+                return (1, 0)
+            return (0, l.index(d[1]))
+        out.append(dict(s, decl=sorted(s["decl"], key=key)))
+    return out
+
+
+# ------------------------------------------------------------------ the property's own oracle, with the key order of C10
+
+def v_match(v, expr):
+    """v satisfies  [op] w (|| [op] w)*  in the key order; None when C10's statement does not determine it: a name or
+    operand outside the conventional grammar, or one of several alternatives with another letter prefix than v (the
+    common-prefix condition of match_alternatives; the real matcher gives up on the whole expression at the first
+    operand it cannot sort against v).  A single term with another prefix does not match (match_other_prefix)."""
+    kv = C10.pykey(v)
+    alts = expr.split("||")
+    res = False
+    for alt in alts:
+        m = _re.fullmatch(r"\s*(<=|>=|==|<|>)?\s*(\S+)\s*", alt)
+        if not m or kv is None or C10.pykey(m.group(2)) is None:
+            return None
+        op, w = m.group(1), m.group(2)
+        if C10.prefix(v) != C10.prefix(w):
+            if len(alts) > 1:
+                return None
+        elif C10.REL[op](C10.keycmp(v, w)):
+            res = True
+    return res
+
+
+def v_highest(db, n, f, pred):
+    """every (stack, version, flavor) that is a highest declared version satisfying pred: all spellings of the
+    highest key, each at the first stack declaring it; None when a name is not conventional or pred undefined"""
+    cands = []
+    for s in db:
+        for d in s["decl"]:
+            if d[0] == n and d[2] == f:
+                if C10.pykey(d[1]) is None:
+                    return None
+                ok = pred(d[1])
+                if ok is None:
+                    return None
+                if ok and d[1] not in [c[1] for c in cands]:
+                    cands.append((s["id"], d[1], f))
+    if not cands:
+        return []
+    top = max(C10.pykey(c[1]) for c in cands)
+    return [c for c in cands if C10.pykey(c[1]) == top]
+
+
+def o_designates_v(db, vro, q, known_tags):
+    """the designation rule with the key order of C10.  Returns a list of acceptable answers ([None] = no product),
+    or the string skip when the rule as stated does not determine the case (names outside the conventional grammar;
+    several spellings of the highest key at the top level against an explicitly named version)"""
+    n, version, expr, depth = q["name"], q["version"] or None, q["expr"] or None, q["depth"]
+    rel = version if o_is_expr(version) else None
+    named = version if (version and not rel) else None
+    bracket = expr if (named and o_is_expr(expr)) else None
+    for f in q["flavors"]:
+        i = 0
+        while i < len(vro):
+            e, later = vro[i], vro[i + 1:]
+            i += 1
+            got, fail = [], False
+            vlike_later = any(x in ("version", "version!", "versionExpr") for x in later)
+            if e in ("version", "version!"):
+                if named:
+                    x = o_named(db, n, named, f)
+                    got = [x] if x else []
+                    fail = not got and not vlike_later
+                elif rel:
+                    fail = "versionExpr" not in later
+            elif e == "versionExpr":
+                if rel:
+                    got = v_highest(db, n, f, lambda v: v_match(v, rel))
+                    if got is None:
+                        return "skip"
+                    fail = not got and not vlike_later
+                elif named:
+                    if bracket:
+                        got = v_highest(db, n, f, lambda v: v_match(v, bracket))
+                        if got is None:
+                            return "skip"
+                    if not got:
+                        x = o_named(db, n, named, f)
+                        got = [x] if x else []
+                    fail = not got and not vlike_later
+            elif e == "latest":
+                got = v_highest(db, n, f, lambda v: True)
+                if got is None:
+                    return "skip"
+            elif e in PSEUDO or e.startswith("type:") or e.startswith("warn:") or e not in known_tags:
+                pass
+            else:
+                x = o_tagged(db, n, e, f)
+                got = [x] if x else []
+            if fail:
+                break
+            if got:
+                if depth == 0 and named:
+                    ok = [g for g in got if g[1] == named]
+                    if len(ok) == len(got):
+                        return got
+                    if len(got) > 1:
+                        return "skip"
+                    continue                # not acceptable at the top level: resume after this entry
+                return got
+    return [None]
+
+
+def oracle_v(ctx, case, db, q, impl, known_tags):
+    if not isinstance(impl.get("vro"), list) or q["prev"] is not None:
+        return
+    vro = impl["pref"]
+    for kind, key, qq in (("walk", "walk", dict(q, flavors=q["flavors"][:1], depth=1)), ("setup", "resolve", q)):
+        r = impl.get(key, {})
+        if "err" in r:
+            ctx.fail(kind + "-raises", case, observed=r, what="%s raised %s" % (kind, r["err"]))
+            continue
+        exp = o_designates_v(db, vro, qq, known_tags)
+        if exp == "skip":
+            ctx.bump("versions:oracle-not-determined")
+            continue
+        got = triple(r["found"])
+        ctx.bump("versions:oracle-evaluated")
+        if got not in exp:
+            ctx.fail(kind + "-designation", case, expected=exp, observed=got,
+                     what="%s returned %r; in the key order of C10 the VRO %r designates %r" % (kind, got, vro, exp))
+
+
+# ------------------------------------------------------------------ comparing
+
+def to_line_v(db, q, user):
+    return "casev" + to_line(db, q, user)[len("case"):]
+
+
+def parse_model_v(line):
+    f = line.split("\t")
+    if f[0] != "ok":
+        return {"driver": line}
+    out = {"pref0": [dec(x) for x in f[1].split(",")] if f[1] else []}
+    if f[2].startswith("err:"):
+        out["vro"] = {"err": f[2][4:]}
+        return out
+    out["vro"] = [dec(x) for x in f[2].split(",")] if f[2] else []
+    out["walk"] = {"err": f[3][4:]} if f[3].startswith("err:") else {"found": dec_found(f[3]), "reason": dec_reason(f[4])}
+    out["resolve"] = {"err": f[5][4:]} if f[5].startswith("err:") else {"found": dec_found(f[5]), "reason": dec_reason(f[6])}
+    out["spec_in"], out["spec"] = dec_found(f[7]), dec_found(f[8])
+    out["wf"], out["domain"], out["conv"], out["names_ok"] = (x == "1" for x in f[9:13])
+    out["latest"], out["latest_tie"] = dec_found(f[13]), dec_found(f[14])
+    out["expr"], out["expr_tie"] = f[15], f[16]
+    return out
+
+
+def compare_groups_versions(ctx, groups, label="versions"):
+    """real resolver against the model instantiated with C10's comparator; the model gets the declarations in the
+    listing order of the look-up mode"""
+    impl = run_parallel_v(groups)
+    lines, index = [], []
+    for gi, (g, ir) in enumerate(zip(groups, impl)):
+        for qi, q in enumerate(g["requests"]):
+            r = ir["requests"][qi]
+            dbs = {"db": db_sorted(g["db"]), "cache": db_as_listed(g["db"], q, r["listing"])}
+            if [s["decl"] for s in dbs["db"]] != [s["decl"] for s in dbs["cache"]]:
+                mine = lambda d: [[x[1] for x in s["decl"] if x[0] == q["name"] and x[2] == f]
+                                  for s in d for f in (NATIVE, FALLBACK)]
+                if mine(dbs["db"]) != mine(dbs["cache"]):
+                    ctx.bump("versions:cache-listing-differs-from-sorted")
+            for mode in ("db", "cache"):
+                lines.append(to_line_v(dbs[mode], q, ir["user"]))
+                index.append((gi, qi, mode))
+            # names that compare equal: the listing order decides, and the two look-up modes need not list alike
+            fa, fb = (r[m].get("resolve", {}).get("found") for m in ("db", "cache"))
+            if fa != fb and "err" not in r["db"].get("resolve", {}) and "err" not in r["cache"].get("resolve", {}):
+                ctx.bump("versions:answer-through-cache-differs-from-answer-from-database-files")
+    mout = [parse_model_v(l) for l in ctx.model(lines)]
+    known_tags = set(["current", "stable", "latest"] + EXTRA_GLOBAL)
+    for (gi, qi, mode), m in zip(index, mout):
+        g, ir = groups[gi], impl[gi]
+        if "driver" in m:
+            raise RuntimeError("model driver: " + m["driver"])
+        q = g["requests"][qi]
+        r = ir["requests"][qi]
+        i = r[mode]
+        case = {"db": g["db"], "request": q, "family": "versions", "readCache": mode == "cache"}
+        names = sorted(set(d[1] for s in g["db"] for d in s["decl"] if d[0] == q["name"]))
+        tie = len(set(map(str, (C10.pykey(v) for v in names)))) < len(names) and all(C10.pykey(v) for v in names)
+        shape = "%s/%s/d%d/%s" % (label, q["form"], q["depth"], mode)
+        ctx.count(1, key=shape, nontrivial=json.dumps([g["db"], q, mode], sort_keys=True)
+                  if isinstance(i.get("resolve"), dict) and i["resolve"].get("found") else None)
+        if not isinstance(m.get("vro"), list):
+            if isinstance(i.get("vro"), list):
+                ctx.disagree(case, m.get("vro"), i["vro"], where="versions/selectVRO")
+            continue
+        if not m["domain"]:
+            # a comparison the request causes raises in the model of C10: counted, the real code must raise or find nothing
+            ctx.bump("real-comparator:outside-domain")
+            continue
+        if not r["order"]["consistent"]:
+            # hooks.version_cmp is not a total preorder on the declared names (2 < 10 < 1a < 2): what python's sort
+            # returns is not determined by the comparator, the model does not claim it
+            ctx.bump("real-comparator:order-not-a-preorder-not-compared")
+            continue
+        ctx.bump("real-comparator-comparisons")
+        ctx.bump("real-comparator:" + ("conventional-names" if m["conv"] else "accepted-not-conventional"))
+        if m["conv"]:
+            ctx.bump("real-comparator:" + ("distinct-keys (total_order_on holds)" if m["names_ok"] else
+                                           "names-with-equal-keys"))
+        if tie != (m["conv"] and not m["names_ok"]):
+            ctx.disagree(case, {"conv": m["conv"], "names_ok": m["names_ok"]}, {"equal-keys": tie},
+                         where="versions/spec: real_names_ok of the Coq side vs the harness's keys")
+        mc = {"pref0": m["pref0"], "vro": m["vro"], "walk": m["walk"], "resolve": m["resolve"]}
+        ic = canon_impl(i)
+        if ic != mc:
+            ctx.disagree(case, mc, ic, where="versions/" + mode)
+        # the statements of the theorems, evaluated on the extracted definitions
+        if m["conv"]:
+            if triple(m["latest"]) != triple(m["latest_tie"]) or m["expr"] != m["expr_tie"]:
+                ctx.disagree(case, {"latest_tie": m["latest_tie"], "expr_tie": m["expr_tie"]},
+                             {"find_latest": m["latest"], "select_latest(find_by_expr)": m["expr"]},
+                             where="versions/spec: tie rules differ from the extracted look-ups")
+        if m["names_ok"] and m["wf"] and q["prev"] is None:
+            if triple(m["spec_in"]) != triple(m["walk"].get("found")) or triple(m["spec"]) != triple(m["resolve"].get("found")):
+                ctx.disagree(case, {"designates_in": m["spec_in"], "designates": m["spec"]},
+                             {"walk": m["walk"], "resolve": m["resolve"]},
+                             where="versions/spec: designates differs from the extracted model under real_names_ok")
+        if isinstance(i.get("vro"), list):
+            oracle_v(ctx, case, g["db"], q, i, known_tags)
+    return impl, mout
+
+
+def corpus_groups_versions():
+    d = os.path.join(common.ROOT, "corpus", PID, "versions")
+    out = []
+    if os.path.isdir(d):
+        for f in sorted(os.listdir(d)):
+            if f.endswith(".json"):
+                out.append(case_to_group_v(json.load(open(os.path.join(d, f)))["input"]))
+    return out
+
+
+def case_to_group_v(c):
+    if "requests" in c:
+        return dict(c, family="versions")
+    return {"db": c["db"], "requests": [c["request"]], "family": "versions"}
+
+
+def run_versions(ctx):
+    groups = corpus_groups_versions() + directed_groups_versions()
+    for _ in range(ctx.size(120, 1500)):
+        groups.append(gen_group_versions(ctx.rng, ctx.size(14, 20)))
+    for i in range(0, len(groups), 400):
+        compare_groups_versions(ctx, groups[i:i + 400])
+    tie_cache_probe(ctx)
+
+
+# ------------------------------------------------------------------ a cache that was written through
+
+def _tie_cache_child(order):
+    """child: one stack, EUPS_FLAVOR = generic (no fall-back flavor, so the persisted cache is not rebuilt by every
+    process); the versions of p1 declared through Eups.declare in the given order, each in a fresh Eups that reads and
+    writes the cache; then latest and an expression through the database files and through the cache"""
+    base = common.scratch_dir()
+    try:
+        _setup_environ(base)
+        os.environ["EUPS_PATH"] = os.path.join(base, "s1")
+        os.environ["EUPS_FLAVOR"] = FALLBACK
+        eups = common.import_eups()
+        os.makedirs(os.path.join(base, "s1", "ups_db"))
+        os.makedirs(os.path.join(base, "ud", "ups_db"))
+        for v in order:
+            sys.modules["eups.db.Database"]._databases.clear()
+            e = eups.Eups(readCache=True, quiet=1, setupType=None)
+            pd = os.path.join(base, "s1", "prod", v)
+            os.makedirs(os.path.join(pd, "ups"))
+            open(os.path.join(pd, "ups", "p1.table"), "w").close()
+            e.declare("p1", v, pd, tablefile=os.path.join(pd, "ups", "p1.table"))
+        out = {}
+        for rc in (False, True):
+            sys.modules["eups.db.Database"]._databases.clear()
+            e = eups.Eups(readCache=rc, quiet=1, setupType=None)
+            e.selectVRO(None, None, None, None)
+            r = {}
+            for x in TIE_CACHE_EXPRS:
+                e.alreadySetupProducts = {}
+                p, _ = e.findProductFromVRO("p1", x, None, recursionDepth=1, vro=e.getPreferredTags())
+                r[x] = p.version if p else None
+            p = e.findTaggedProduct("p1", "latest")
+            r["latest"] = p.version if p else None
+            st = e.versions.get(os.path.join(base, "s1"))
+            r["listing"] = list(st.getVersions("p1", FALLBACK)) if (rc and st) else sorted(order)
+            out["cache" if rc else "db"] = r
+        return out
+    finally:
+        shutil.rmtree(base, ignore_errors=True)
+
+
+TIE_CACHE_EXPRS = [">= 0.9", "== 1.0", "<= 1_0"]
+
+
+def tie_cache_probe(ctx):
+    """names that compare equal, a cache that was written through (not rebuilt from the database files): the cache lists
+    the versions in the order of declaration, the database files sorted as strings.  Each look-up mode is compared with
+    the model given ITS listing; whether the two modes name the same spelling is counted, not judged (the property asks
+    for the highest version, and both are)"""
+    for order in (["0.9", "1_0", "1.0"], ["1.00", "1.0", "0.9", "01.0"]):
+        r = common.in_child(_tie_cache_child, order, timeout=300)
+        if r[0] != "ok":
+            raise RuntimeError("tie/cache probe failed: %r" % (str(r)[-1500:],))
+        res = r[1]
+        lines, keys = [], []
+        for mode in ("db", "cache"):
+            db = [{"id": "s1", "decl": [["p1", v, FALLBACK] for v in res[mode]["listing"]], "chain": []}]
+            for x in TIE_CACHE_EXPRS + [None]:
+                q = {"name": "p1", "version": x, "expr": None, "depth": 1, "flavors": [FALLBACK, FALLBACK], "prev": None,
+                     "opts": {"keep": False, "exact": False, "inexact": False, "tags": [] if x else ["latest"], "posttags": []}}
+                lines.append(to_line_v(db, q, "root"))
+                keys.append((mode, x or "latest"))
+        for (mode, x), m in zip(keys, [parse_model_v(l) for l in ctx.model(lines)]):
+            want = (m.get("walk", {}).get("found") or {}).get("version")
+            got = res[mode][x]
+            ctx.bump("real-comparator-comparisons")
+            ctx.bump("versions:written-through-cache/" + mode)
+            if want != got:
+                ctx.disagree({"family": "versions", "declared-in-order": order, "mode": mode, "request": x,
+                              "listing": res[mode]["listing"]}, want, got, where="versions/written-through-cache/" + mode)
+        for x in TIE_CACHE_EXPRS + ["latest"]:
+            if res["db"][x] != res["cache"][x]:
+                ctx.bump("versions:answer-through-cache-differs-from-answer-from-database-files")
+        if res["db"]["listing"] != res["cache"]["listing"]:
+            ctx.bump("versions:cache-listing-differs-from-sorted")
+        ctx.extra.setdefault("tie_cache_probe", []).append({"declared-in-order": order, "db": res["db"], "cache": res["cache"]})
